@@ -1,7 +1,8 @@
 (* C05 — Merging is insensitive to arrival order, duplication and batching.
    Statements only (proofs in Event/Merge_order_proofs.v). Results are compared per property
    as object SETS (`seteq`), which is what an event's property holds. *)
-From EdxmlVerif Require Import Base.Prelude Base.Bytes Event.Merge Event.Merge_proofs Event.Merge_order_proofs.
+From EdxmlVerif Require Import Base.Prelude Base.Bytes Event.Merge Event.Merge_proofs Event.Merge_order_proofs
+  Event.Stream Event.Collection Event.Collection_proofs Event.Collection_perm Event.Stream_proofs.
 From Coq Require Import Permutation.
 
 Section C05.
@@ -82,3 +83,55 @@ Proof.
   split; [apply perm_swap|]. split; [reflexivity|]. vm_compute. discriminate.
 Qed.
 Print Assumptions C05_min_noninjective_refuted.
+
+(* ---- the stream mergers of edxml-merge (models in Event/Stream.v, run against the two classes on every check) ----
+   Premises: the event type has no version property and no `replace` strategy (the batching law), events are well formed
+   and hold at most one object for properties merged by min / max (as valid events do). *)
+Section C05_streams.
+Variable rank : str -> str -> Z.
+Variable et : etype.
+Hypothesis no_version : et_version et = None.
+Hypothesis no_replace : forall p, strat_of et p <> SReplace.
+
+(* BufferingEDXMLEventMerger: for EVERY buffer size and stream, the logical events of the output (its events merged
+   per hash) are the logical events of the input *)
+Theorem C05_buffering_merger : forall n s out,
+  Forall (fun it => wf (snd it)) s -> Forall (fun it => single_valued_extremes et (snd it)) s ->
+  buffered rank FirstSet et true n [] 0 s = Some out ->
+  exists r1 r2, logical rank FirstSet et out = Some r1 /\ logical rank FirstSet et s = Some r2 /\
+                forall h, agree_at r1 r2 h.
+Proof. exact (buffered_logical rank et no_version no_replace). Qed.
+
+(* EDXMLEventMerger (one running merge per hash): its buffer at the end holds the logical events of the input *)
+Theorem C05_unbuffered_merger : forall s out,
+  Forall (fun it => wf (snd it)) s -> Forall (fun it => single_valued_extremes et (snd it)) s ->
+  fold_merger rank FirstSet et [] s = Some out ->
+  exists r2, logical rank FirstSet et s = Some r2 /\ forall h, agree_at out r2 h.
+Proof. exact (fold_merger_logical rank et no_version no_replace). Qed.
+End C05_streams.
+Print Assumptions C05_buffering_merger.
+Print Assumptions C05_unbuffered_merger.
+
+Definition ws_et := {| et_strat := [([112]%N, SMatch); ([97]%N, SAdd); ([109]%N, SMin)]; et_version := None |}.
+Definition ws_e (a m : N) (par : list str) :=
+  {| me_props := [([112]%N, [[120]%N]); ([97]%N, [[a]]); ([109]%N, [[m]])]; me_parents := par; me_tag := 1 |}.
+Definition ws_s : list item := [([104]%N, ws_e 49 53 [[7]%N]); ([102]%N, ws_e 50 52 []); ([104]%N, ws_e 51 51 []); ([104]%N, ws_e 49 57 [[8]%N])].
+Example C05_streams_nonvacuous :
+  et_version ws_et = None /\ (forall p, strat_of ws_et p <> SReplace) /\
+  Forall (fun it => wf (snd it)) ws_s /\ Forall (fun it => single_valued_extremes ws_et (snd it)) ws_s /\
+  (exists out, buffered (fun _ v => Z.of_N (hd 0%N v)) FirstSet ws_et true 2 [] 0 ws_s = Some out /\ length out = 3) /\
+  (exists out, fold_merger (fun _ v => Z.of_N (hd 0%N v)) FirstSet ws_et [] ws_s = Some out /\ length out = 2).
+Proof.
+  split; [reflexivity|]. split.
+  { intro p. unfold strat_of, ws_et. cbn [et_strat aget].
+    destruct (str_eqb p [112]%N); [discriminate|]. destruct (str_eqb p [97]%N); [discriminate|].
+    destruct (str_eqb p [109]%N); discriminate. }
+  split.
+  { repeat constructor; cbn; intuition congruence. }
+  split.
+  { repeat constructor; intro p; unfold strat_of, ws_et, get, ws_e; cbn [et_strat aget me_props snd];
+      destruct (str_eqb p [112]%N); cbn [odefault]; try exact I;
+      destruct (str_eqb p [97]%N); cbn [odefault]; try exact I;
+      destruct (str_eqb p [109]%N); cbn [odefault length]; try exact I; lia. }
+  split; eexists; (split; [vm_compute; reflexivity | reflexivity]).
+Qed.
